@@ -416,13 +416,82 @@ func ruleCacheFiles(c *Check, p *Prog, rule string) {
 			lg = g
 		}
 	}
+	// a creator that is a helper of the package (all its callers are functions of the package) is
+	// judged in its callers, with the helper looked through: the rename may sit one level up
+	{
+		var roots []*ssa.Function
+		seenR := map[*ssa.Function]bool{}
+		var up func(f *ssa.Function, d int)
+		up = func(f *ssa.Function, d int) {
+			f = topParent(f)
+			var callers []*ssa.Function
+			for _, cl := range p.Funcs {
+				if fnPkg(cl) == nil || fnPkg(cl).Pkg.Path() != cachePkg || cl.Blocks == nil {
+					continue
+				}
+				if cl.Origin() != nil && cl.Origin() != cl {
+					continue
+				}
+				for _, b := range cl.Blocks {
+					for _, in := range b.Instrs {
+						if call, ok := in.(*ssa.Call); ok {
+							if cal := call.Common().StaticCallee(); cal != nil && (cal == f || (cal.Origin() != nil && cal.Origin() == f)) {
+								callers = append(callers, cl)
+							}
+						}
+					}
+				}
+			}
+			exported := f.Object() != nil && f.Object().Exported()
+			if len(callers) == 0 || exported || d >= 3 {
+				if !seenR[f] {
+					seenR[f] = true
+					roots = append(roots, f)
+				}
+				return
+			}
+			for _, cl := range callers {
+				up(cl, d+1)
+			}
+		}
+		for _, w := range creators {
+			up(w, 0)
+		}
+		// keep the innermost roots only: a root that merely calls another root adds nothing
+		var keep []*ssa.Function
+		for _, r := range roots {
+			inner := false
+			for _, o := range roots {
+				if o != r {
+					for _, cal := range staticCalleesOf(p, r) {
+						if cal == o || (cal.Origin() != nil && cal.Origin() == o) {
+							inner = true
+						}
+					}
+				}
+			}
+			if !inner || callsNamed(r, func(n string) bool { return n == "os.Rename" }) {
+				keep = append(keep, r)
+			}
+		}
+		// the innermost function that both (transitively) creates and renames, else the creator itself
+		var chosen []*ssa.Function
+		for _, r := range keep {
+			if callsNamed(r, func(n string) bool { return n == "os.Rename" }) {
+				chosen = append(chosen, r)
+			}
+		}
+		if len(chosen) > 0 {
+			creators = chosen
+		}
+	}
 	seen := map[*ssa.Function]bool{}
 	for _, w := range creators {
 		if seen[w] {
 			continue
 		}
 		seen[w] = true
-		g := BuildECFG(p, w, ExpandOpts{MaxDepth: 0})
+		g := BuildECFG(p, w, ownPkgOpts(cachePkg, 3))
 		c.NoteGraph(g)
 		isCreate := IsCall("os.Create", "os.OpenFile", "os.WriteFile")
 		isRename := IsCall("os.Rename")
